@@ -341,6 +341,16 @@ def hygiene():
                 src = re.sub(r"\(\*.*?\*\)", "", src, flags=re.S)
                 for m in HYGIENE_RE.finditer(src):
                     bad.append("%s: %s" % (os.path.join(root, f), m.group(0)))
+                # a Variable / Hypothesis / Context outside a section declares an axiom
+                depth = 0
+                for line in src.splitlines():
+                    t = line.strip()
+                    if re.match(r"Section\s+\w+\s*\.", t):
+                        depth += 1
+                    elif re.match(r"End\s+\w+\s*\.", t) and depth > 0:
+                        depth -= 1
+                    elif depth == 0 and re.match(r"(Variables?|Hypothes[ie]s|Context)\b", t):
+                        bad.append("%s: %s outside a section" % (os.path.join(root, f), t[:60]))
     return bad
 
 
